@@ -43,6 +43,9 @@ def fmt(sig):
 
 
 def run(ctx):
+    # contents are keyed by Substance objects: the key laws this property's bookkeeping relies on
+    from .identity import identity_discipline as _identity
+    _identity(ctx, 'C09.R1', classes=('Substance',), memoised=False)
     model = ctx.model
     from . import unitspec as _us
     _us.api_verified(ctx, 'C09.R4')
